@@ -12,10 +12,10 @@ WITNESSES = {'all': ['writes-output', 'several-answers', 'format-unit', 'print_l
 OPTS = {'quick': {'selfcheck_mod': 60, 'budget_s': 280}, 'thorough': {'selfcheck_mod': 600, 'budget_s': 3000}}
 STEP_LIMIT = 1_500_000
 BOUNDS = {
-    'quick': 'bodies of up to 3 goals (6 conjunction/disjunction shapes) over {p($X), q($X), r($X, $Y), $X = b, fail} and the output goals print(x), print($X), print("<%s>", $X), '
+    'quick': 'bodies of up to 3 goals (6 conjunction/disjunction shapes) over {p($X), q($X), r($X, $Y), $X = b, fail, d(a) (a goal that succeeds twice without binding anything)} and the output goals print(x), print($X), print("<%s>", $X), '
              'print("%s-%s.", $X, $Y), nl, print_list([$X, k]), print_list($L) with $L bound through a list fact, print_list([$X | $L]) with a bound tail, print_list of nested / empty lists and numbers, print with surplus arguments, without markers, with a float and with a bound integer; at least one output goal per body; the text written before each '
              'answer and after the last one is compared with the reference search; unit level: format_for_print_pred on a format string of 0-5 characters over {%, s, a} (each a '
-             'solver variable) with 0-3 further arguments',
+             'solver variable) with 0-3 further arguments (plain ones, and ones that themselves contain `%s`)',
     'thorough': 'adds a second output goal menu entry with two markers and three arguments, print_list on a bound-tail list, and 7-character format strings',
 }
 OUTSIDE = 'time(...) output; printing unbound variables; print_list with several arguments'
@@ -24,7 +24,7 @@ ASSUMPTIONS = ['stdout is the modelled io::_print log in the executor and the ca
 OUTG = [gb('print', A('x')), gb('print', X), gb('print', A('<%s>'), X), gb('print', A('%s-%s.'), X, Y), gb('nl'), gb('print_list', L(X, A('k'))), AND(gc('l', Z), gb('print_list', Z)),
         AND(gc('l', Z), gb('print_list', L(X, tail=Z))), gb('print_list', L(L(A('b'), A('m')), L(), I(3), ('float', 2.5), X)), gb('print', A('%s and %s'), X, A('y'), A('z'), I(7)),
         gb('print', X, A(' is '), ('float', 0.25), A('%')), AND(gc('n', Z), gb('print', A('n=%s;'), Z))]
-MENU = [gc('p', X), gc('q', X), gc('r', X, Y), U(X, A('b')), gb('fail')]
+MENU = [gc('p', X), gc('q', X), gc('r', X, Y), U(X, A('b')), gb('fail'), gc('d', A('a'))]
 
 
 def is_out(g): return g in OUTG
@@ -43,10 +43,12 @@ def cases(tier, seed):
                 add(AND(a, o, b)); add(AND(a, b, o)); add(AND(o, a, b)); add(OR(AND(a, o), b)); add(AND(OR(a, b), o)); add(AND(a, OR(o, b)))
         for o2 in OUTG[:5]:
             add(AND(MENU[0], o, o2)); add(AND(o, MENU[2], o2))
+            add(AND(OR(o, o2), OUTG[0], gb('fail'))); add(AND(OR(o, o2), gc('d', A('a')), o2))
     nf = 5 if tier == 'quick' else 7
     for n in range(0, nf + 1):
         for k in range(0, 4):
-            out.append({'id': 'format %d chars, %d arguments' % (n, k), 'fam': 'format', 'n': n, 'k': k})
+            for argset in ((0,) if k == 0 else (0, 1, 2)):
+                out.append({'id': 'format %d chars, %d arguments (set %d)' % (n, k, argset), 'fam': 'format', 'n': n, 'k': k, 'argset': argset})
     return out
 
 
@@ -59,7 +61,7 @@ def run_format(drv, case):
         chars.append(c)
     # the reference needs the text: concretise (the solver enumerates the 3^n strings)
     text = ''.join(chr(m.concretize(c)) if isinstance(c, Sym) else c for c in chars)
-    args = ['A', 'B', 'C'][:case['k']]
+    args = [['A', 'B', 'C'], ['%s', 'B', 's%'], ['x%sy', '%s', 'C']][case.get('argset', 0)][:case['k']]
     got = drv.fmtprint([text] + args)
     want = S.format_print([text] + args)
     if got != want:
